@@ -431,3 +431,96 @@ pub fn resolve_ref(base: &str, reference: &str) -> String {
     }
     s
 }
+
+// ------------------------------------------------------------------------------------------------
+// Independent multipart/form-data decoder (RFC 7578 / RFC 2046 §5.1).
+
+#[derive(Clone, Debug, PartialEq, Eq, PartialOrd, Ord)]
+pub struct Part {
+    pub name: Vec<u8>,
+    pub filename: Option<Vec<u8>>,
+    pub content_type: Option<Vec<u8>>,
+    pub data: Vec<u8>,
+}
+
+fn find(h: &[u8], n: &[u8], from: usize) -> Option<usize> {
+    if n.is_empty() || h.len() < n.len() {
+        return None;
+    }
+    (from..=h.len() - n.len()).find(|&i| &h[i..i + n.len()] == n)
+}
+
+/// multipart-body := preamble CRLF? dash-boundary CRLF part *( CRLF dash-boundary CRLF part ) CRLF dash-boundary "--"
+/// (an empty form is `[preamble CRLF] dash-boundary "--"`).
+pub fn decode_multipart(boundary: &[u8], body: &[u8]) -> Result<Vec<Part>, String> {
+    let mut dash = b"--".to_vec();
+    dash.extend_from_slice(boundary);
+    // first delimiter: at the very start, or after a CRLF
+    let mut pos = if body.starts_with(&dash) {
+        dash.len()
+    } else {
+        let mut d = b"\r\n".to_vec();
+        d.extend_from_slice(&dash);
+        match find(body, &d, 0) {
+            Some(i) => i + d.len(),
+            None => return Err("no opening delimiter".into()),
+        }
+    };
+    let mut delim = b"\r\n".to_vec();
+    delim.extend_from_slice(&dash);
+    let mut parts = vec![];
+    loop {
+        if body[pos..].starts_with(b"--") {
+            // close delimiter; epilogue must be empty here (the client writes none)
+            if pos + 2 != body.len() {
+                return Err(format!("{} bytes after the close delimiter", body.len() - pos - 2));
+            }
+            return Ok(parts);
+        }
+        if !body[pos..].starts_with(b"\r\n") {
+            return Err("delimiter not followed by CRLF or --".into());
+        }
+        pos += 2;
+        // headers until blank line
+        let hend = find(body, b"\r\n\r\n", pos).ok_or("part headers not terminated")?;
+        let mut part = Part { name: vec![], filename: None, content_type: None, data: vec![] };
+        let mut seen_cd = false;
+        for line in body[pos..hend].split(|&b| b == b'\n').map(|l| l.strip_suffix(b"\r").unwrap_or(l)) {
+            let c = line.iter().position(|&b| b == b':').ok_or("part header without colon")?;
+            let name = line[..c].to_ascii_lowercase();
+            let val = &line[c + 1..];
+            let val = &val[val.iter().position(|&b| b != b' ').unwrap_or(val.len())..];
+            if name == b"content-disposition" {
+                seen_cd = true;
+                if !val.starts_with(b"form-data") {
+                    return Err("disposition is not form-data".into());
+                }
+                let get = |key: &[u8]| -> Option<Vec<u8>> {
+                    let mut k = b"; ".to_vec();
+                    k.extend_from_slice(key);
+                    k.extend_from_slice(b"=\"");
+                    let i = find(val, &k, 0)? + k.len();
+                    let j = val[i..].iter().position(|&b| b == b'"')? + i;
+                    Some(val[i..j].to_vec())
+                };
+                part.name = get(b"name").ok_or("no name parameter")?;
+                part.filename = get(b"filename");
+            } else if name == b"content-type" {
+                part.content_type = Some(val.to_vec());
+            } else {
+                return Err(format!("unexpected part header {:?}", String::from_utf8_lossy(&name)));
+            }
+        }
+        if !seen_cd {
+            return Err("part without Content-Disposition".into());
+        }
+        let dstart = hend + 4;
+        let dend = find(body, &delim, dstart).ok_or("part data not followed by a delimiter")?;
+        part.data = body[dstart..dend].to_vec();
+        parts.push(part);
+        pos = dend + delim.len();
+        if pos > body.len() {
+            return Err("truncated".into());
+        }
+    }
+}
